@@ -254,6 +254,7 @@ func NewHost(o Options) *Host {
 	L.SetGlobal("luadepth", L.NewFunction(h.luadepth))
 	L.SetGlobal("hostcall", L.NewFunction(h.hostcall))
 	L.SetGlobal("hostpcall", L.NewFunction(h.hostpcall))
+	L.SetGlobal("hostyield", L.NewFunction(h.hostyield))
 	// reattach(): a host function that replaces the attached context by a fresh one in mid-run
 	// (a no-op when no context is attached); the simulator then fires the new one
 	L.SetGlobal("reattach", L.NewFunction(func(L *lua.LState) int {
@@ -500,6 +501,18 @@ func (h *Host) hostcall(L *lua.LState) int {
 	}
 	L.Call(n-1, lua.MultRet)
 	return L.GetTop()
+}
+
+// hostyield(k, base) suspends the running coroutine through the Go API: it yields the k values base+1 .. base+k
+// (whatever number of arguments it was given); the values given to the next resume are its results.
+func (h *Host) hostyield(L *lua.LState) int {
+	h.hostEnter(L)
+	k, base := L.OptInt(1, 0), L.OptInt(2, 0)
+	vals := make([]lua.LValue, k)
+	for i := range vals {
+		vals[i] = lua.LNumber(base + i + 1)
+	}
+	return L.Yield(vals...)
 }
 
 // hostpcall(f, ...) is a Go-side protected call: L.PCall with MultRet and no handler.
